@@ -121,10 +121,6 @@ Qed.
 
 (* ------------------------------------------------------------ checkout *)
 
-(* text with both CRLF and lone LF *)
-Definition mixed (bs : bytes) : bool :=
-  let s := git_stats bs in negb (git_is_binary s) && (0 <? s_crlf s) && (0 <? s_lonelf s).
-
 Lemma crlf_stream_nocr chunks :
   has_cr (List.concat chunks) = false ->
   crlf_stream false chunks = git_lf_to_crlf false (List.concat chunks).
@@ -133,21 +129,24 @@ Proof.
   inversion E. reflexivity.
 Qed.
 
+Lemma get_stat_crlf bs : short bs = true -> s_crlf (get_stat bs) = s_crlf (git_gather bs).
+Proof. intros H. rewrite <- stats_crlf, <- get_stat_git by assumption. reflexivity. Qed.
+
 Lemma checkout_eq_git ac chunks :
-  short (List.concat chunks) = true -> mixed (List.concat chunks) = false ->
+  short (List.concat chunks) = true ->
   checkout_conv ac chunks = Some (git_checkout ac (List.concat chunks)).
 Proof.
-  intros Hs Hm. destruct ac; try reflexivity.
-  unfold checkout_conv. rewrite is_binary_get_stat by assumption.
-  set (blob := List.concat chunks) in *. unfold mixed in Hm.
+  intros Hs. destruct ac; try reflexivity.
+  unfold checkout_conv. cbv zeta. rewrite is_binary_get_stat, get_stat_crlf by assumption.
+  set (blob := List.concat chunks) in *.
   destruct (git_is_binary (git_stats blob)) eqn:B.
-  - f_equal. unfold git_checkout. destruct blob; [reflexivity|].
+  - cbn [orb]. f_equal. unfold git_checkout. destruct blob; [reflexivity|].
     rewrite will_convert_binary by assumption. reflexivity.
-  - rewrite crlf_writer_spec. cbn [option_map fst]. f_equal.
+  - cbn [orb].
     pose proof (not_binary_lonecr _ B) as Hl. rewrite stats_lonecr in Hl.
-    cbn [negb andb] in Hm. rewrite stats_crlf, stats_lonelf in Hm.
-    destruct (s_crlf (git_gather blob) =? 0) eqn:EC.
-    + assert (Hn : has_cr blob = false) by (apply stats_nocr; lia).
+    destruct (s_crlf (git_gather blob) =? 0) eqn:EC; cbn [negb].
+    + rewrite crlf_writer_spec. cbn [option_map fst]. f_equal.
+      assert (Hn : has_cr blob = false) by (apply stats_nocr; lia).
       unfold blob. rewrite crlf_stream_nocr by exact Hn. fold blob.
       unfold git_checkout. destruct blob as [|b0 r] eqn:EB; [reflexivity|]. rewrite <- EB in *.
       unfold git_will_convert. rewrite stats_lonelf, stats_lonecr, stats_crlf, B.
@@ -155,11 +154,10 @@ Proof.
       * apply git_lf_to_crlf_alf, lonelf0_alf. lia.
       * replace (0 <? s_lonecr (git_gather blob)) with false by lia.
         replace (0 <? s_crlf (git_gather blob)) with false by lia. reflexivity.
-    + assert (Hz : s_lonelf (git_gather blob) = 0) by lia.
-      unfold blob at 1. rewrite crlf_stream_alf by (apply lonelf0_alf; exact Hz). fold blob.
-      unfold git_checkout. destruct blob as [|b0 r] eqn:EB; [reflexivity|]. rewrite <- EB in *.
-      unfold git_will_convert. rewrite stats_lonelf.
-      replace (s_lonelf (git_gather blob) =? 0) with true by lia. reflexivity.
+    + f_equal. unfold git_checkout. destruct blob as [|b0 r] eqn:EB; [reflexivity|]. rewrite <- EB in *.
+      unfold git_will_convert. rewrite stats_lonelf, stats_lonecr, stats_crlf.
+      destruct (s_lonelf (git_gather blob) =? 0); [reflexivity|].
+      replace (0 <? s_crlf (git_gather blob)) with true by lia. rewrite orb_true_r. reflexivity.
 Qed.
 
 (* ------------------------------------------------------------ add *)
@@ -306,11 +304,13 @@ Proof.
   assert (Hid : f = blob -> add_conv ac c2 = Some blob).
   { intros ->. rewrite <- Hf. apply add_text_nocrlf; rewrite Hf; assumption. }
   destruct ac; try (apply Hid; cbn in Hc; now inversion Hc).
-  unfold checkout_conv in Hc. fold blob in Hc. rewrite is_binary_get_stat in Hc by assumption.
+  unfold checkout_conv in Hc. cbv zeta in Hc. fold blob in Hc.
+  rewrite is_binary_get_stat, get_stat_crlf in Hc by assumption.
   destruct (git_is_binary (git_stats blob)) eqn:B; [apply Hid; now inversion Hc|].
   unfold text_crlf in Ht. rewrite B in Ht. cbn [negb andb] in Ht.
   pose proof (not_binary_lonecr _ B) as Hl. rewrite stats_lonecr in Hl. rewrite stats_crlf in Ht.
   assert (Hn : has_cr blob = false) by (apply stats_nocr; lia).
+  replace (s_crlf (git_gather blob) =? 0) with true in Hc by lia. cbn [orb negb] in Hc.
   rewrite crlf_writer_spec in Hc. cbn [option_map fst] in Hc. unfold blob in Hn.
   rewrite crlf_stream_nocr in Hc by exact Hn. fold blob in Hc, Hn. inversion Hc as [Ef]. clear Hc.
   (* re-add of the converted file *)
